@@ -58,6 +58,11 @@ pub fn instances() -> Vec<Instance> {
             push(t, RefKind::Int, reduced);
         }
     }
+    // digits in front of every keyword: one identifier (the keyword tables must see the whole text)
+    for (kw, _) in reflex::KEYWORDS {
+        push(format!("4{kw}"), RefKind::Id, *kw == "in");
+        push(format!("07{kw}"), RefKind::Id, false);
+    }
     for b in ["9223372036854775807", "-9223372036854775808", "18446744073709551615", "+18446744073709551615"] {
         push(b.to_string(), RefKind::Int, false);
     }
